@@ -156,9 +156,23 @@ def rule_P1(repo: Repo) -> RuleResult:
         raise AnalysisError(f"P1: only {len(casting)} functions obtain (ints, original dtype) from _cast_timestamps_to_ints "
                             f"(confirmed floor 4): {casting}")
     r1 = repo.func("nanops", "reduce_1d")
+    # flags by what they test: issubdtype(.., datetime64) / issubdtype(.., timedelta64) / name == 'count'
+    fl = {}
+    for n in walk_no_nested(r1.node):
+        if isinstance(n, ast.Assign) and len(n.targets) == 1 and isinstance(n.targets[0], ast.Name):
+            t = norm(n.value)
+            if "issubdtype" in t and "datetime64" in t:
+                fl["dt"] = n.targets[0].id
+            elif "issubdtype" in t and "timedelta64" in t:
+                fl["td"] = n.targets[0].id
+            elif isinstance(n.value, ast.Compare) and len(n.value.ops) == 1 and isinstance(n.value.ops[0], ast.Eq) \
+                    and isinstance(n.value.comparators[0], ast.Constant) and n.value.comparators[0].value == "count":
+                fl["cnt"] = n.targets[0].id
+    if set(fl) != {"dt", "td", "cnt"}:
+        raise AnalysisError(f"P1: temporal / count flags of reduce_1d not identified ({sorted(fl)})")
     total += _p1_function(r1, res, set(), [
-        {"is_datetime": True, "is_timedelta": False, "is_count": False},
-        {"is_datetime": False, "is_timedelta": True, "is_count": False}],
+        {fl["dt"]: True, fl["td"]: False, fl["cnt"]: False},
+        {fl["dt"]: False, fl["td"]: True, fl["cnt"]: False}],
         converter_ok={"pd.to_datetime", "pd.to_timedelta"})
     # de-duplicate violations with the same key
     seen, uniq = set(), []
@@ -197,7 +211,8 @@ def rule_P10(repo: Repo) -> RuleResult:
 # ------------------------------------------------------------------------------- P2, P3, P4 on _apply_gb_reduction
 
 def _red_paths(repo: Repo) -> Tuple[Func, List[SymPath]]:
-    f = repo.func(CORE, "GroupBy._apply_gb_reduction")
+    from .canon import canon_func
+    f = canon_func(repo, CORE, "GroupBy._apply_gb_reduction")      # locals renamed to their inferred roles
     return f, enumerate_paths(f.node.body, limit=60000)
 
 
@@ -555,7 +570,7 @@ def rule_P6(repo: Repo) -> RuleResult:
                         res.bad(f, k.value, "ngroups=" + norm(k.value),
                                 "a kernel result array is allocated without the extra slot: with transform=True code -1 "
                                 "indexes the last real group, so null-key rows receive that group's value")
-        if isinstance(n, ast.Assign) and any(isinstance(t, ast.Name) and t.id == "combined" for t in n.targets) \
+        if isinstance(n, ast.Assign) and len(n.targets) == 1 and isinstance(n.targets[0], ast.Name) \
                 and isinstance(n.value, ast.Call) and norm(n.value.func).endswith("_build_target_for_groupby"):
             found += 1
             shape = n.value.args[2] if len(n.value.args) >= 3 else None
@@ -647,77 +662,83 @@ def _feeding_calls(f: Func, names: Set[str]) -> Set[str]:
 def rule_P7(repo: Repo) -> RuleResult:
     res = RuleResult("P7", "chunk-wise factorization: pointer tables against the final label index; prefix prepended consistently")
     f = repo.func(CORE, "GroupBy._factorize_group_key_in_chunks")
-    body = f.node.body
     stmts = [n for n in walk_no_nested(f.node) if isinstance(n, ast.stmt)]
+
+    def assigns_to(name: str) -> List[ast.Assign]:
+        return [s_ for s_ in stmts if isinstance(s_, ast.Assign) and any(isinstance(t, ast.Name) and t.id == name for t in s_.targets)]
+
+    # roles by dataflow (no local name is assumed):
+    #   codes_list, unique_list = zip(*<chunk results>)
+    unz = [s_ for s_ in stmts if isinstance(s_, ast.Assign) and isinstance(s_.targets[0], ast.Tuple) and len(s_.targets[0].elts) == 2
+           and isinstance(s_.value, ast.Call) and norm(s_.value.func) == "zip" and s_.value.args
+           and isinstance(s_.value.args[0], ast.Starred)]
+    ri_assign = [s_ for s_ in stmts if isinstance(s_, ast.Assign) and any(attr_chain(t) == ("self", "_result_index") for t in s_.targets)]
+    ptr = [s_ for s_ in stmts if isinstance(s_, ast.Assign) and any(attr_chain(t) == ("self", "_group_key_pointers") for t in s_.targets)]
+    if not ptr or not ri_assign or not unz or not all(isinstance(e, ast.Name) for e in unz[0].targets[0].elts):
+        raise AnalysisError("P7: anchors (zip(*chunk results) / result index / pointer assignment) not found")
+    codes_list, unique_list = (e.id for e in unz[0].targets[0].elts)
+    # the argument list of the pointer lookups: second argument of parallel_map in the pointer assignment (through one local)
+    pv = ptr[-1].value
+    argl_expr = pv.args[1] if isinstance(pv, ast.Call) and norm(pv.func).endswith("parallel_map") and len(pv.args) >= 2 else pv
+    argl_stmt = ptr[-1]
+    if isinstance(argl_expr, ast.Name) and len(assigns_to(argl_expr.id)) == 1:
+        argl_stmt = assigns_to(argl_expr.id)[0]
+        argl_expr = argl_stmt.value
     # 1. pointer tables built from self.result_index after its last assignment
-    ri_assign = [s for s in stmts if isinstance(s, ast.Assign) and any(attr_chain(t) == ("self", "_result_index") for t in s.targets)]
-    ptr = [s for s in stmts if isinstance(s, ast.Assign) and any(attr_chain(t) == ("self", "_group_key_pointers") for t in s.targets)]
-    argl = [s for s in stmts if isinstance(s, ast.Assign) and any(isinstance(t, ast.Name) and t.id == "arg_list" for t in s.targets)]
-    if not ptr or not argl or not ri_assign:
-        raise AnalysisError("P7: anchors (result index / arg_list / pointer assignment) not found")
-    # the early return path (fully monotonic) has its own assignment; consider those after it
-    late_ri = [s for s in ri_assign if s.lineno > argl[0].lineno]
-    uses_ri = "self.result_index" in norm(argl[0].value) or "self._result_index" in norm(argl[0].value)
-    if uses_ri and not late_ri and "get_indexer" in norm(ptr[0].value) + " ".join(norm(s) for s in stmts):
-        res.ok(f, argl[0], norm(argl[0])[:90], "pointer tables computed against the label index after its last assignment")
+    late_ri = [s_ for s_ in ri_assign if s_.lineno > argl_stmt.lineno]
+    uses_ri = "self.result_index" in norm(argl_expr) or "self._result_index" in norm(argl_expr)
+    if uses_ri and not late_ri:
+        res.ok(f, argl_stmt, norm(argl_stmt)[:90], "pointer tables computed against the label index after its last assignment")
     else:
-        res.bad(f, argl[0], norm(argl[0])[:90],
+        res.bad(f, argl_stmt, norm(argl_stmt)[:90],
                 "the per-chunk pointer tables are not computed against the final label index (it is re-assigned "
                 "afterwards or not used): local codes would point at the wrong labels")
-    uniq_src = {x.id for x in ast.walk(argl[0].value) if isinstance(x, ast.Name)}
-    concat = [s for s in ri_assign if "np.concatenate" in norm(s.value)]
-    if concat:
-        c_src = {x.id for x in ast.walk(concat[0].value) if isinstance(x, ast.Name)}
-        common = (uniq_src & c_src) - {"pd", "np"}
-        if common:
-            res.ok(f, concat[0], f"labels and pointer tables both built from {sorted(common)}", "")
-        else:
-            res.bad(f, concat[0], norm(concat[0])[:80], "labels and pointer tables are built from different unique lists")
+    uniq_src = {x.id for x in ast.walk(argl_expr) if isinstance(x, ast.Name)}
+    first_ri = [s_ for s_ in ri_assign if unique_list in {x.id for x in ast.walk(s_.value) if isinstance(x, ast.Name)}]
+    if first_ri and unique_list in uniq_src:
+        res.ok(f, first_ri[0], f"labels and pointer tables both built from {unique_list}", "")
+    else:
+        res.bad(f, (first_ri or ri_assign)[0], norm((first_ri or ri_assign)[0])[:80],
+                "labels and pointer tables are built from different unique lists")
     # 2. _index_is_sorted = True only together with sort_values()
-    for s in stmts:
-        if isinstance(s, ast.Assign) and any(attr_chain(t) == ("self", "_index_is_sorted") for t in s.targets) \
-                and isinstance(s.value, ast.Constant) and s.value.value is True:
-            parent = _parent_if(f, s)
+    for s_ in stmts:
+        if isinstance(s_, ast.Assign) and any(attr_chain(t) == ("self", "_index_is_sorted") for t in s_.targets) \
+                and isinstance(s_.value, ast.Constant) and s_.value.value is True:
+            parent = _parent_if(f, s_)
             sib = [norm(x) for x in (parent.body if parent is not None else [])]
             if any("sort_values()" in t and "_result_index" in t for t in sib):
-                res.ok(f, s, norm(s), "set in the same branch that sorts the labels")
+                res.ok(f, s_, norm(s_), "set in the same branch that sorts the labels")
             else:
-                res.bad(f, s, norm(s), "_index_is_sorted is set without sorting the labels in the same branch: results would "
-                                       "be reported in unsorted label order")
+                res.bad(f, s_, norm(s_), "_index_is_sorted is set without sorting the labels in the same branch: results would "
+                                         "be reported in unsorted label order")
     # 3. monotonic prefix prepended to codes and uniques under the same condition, same position
-    pre_blocks = [n for n in walk_no_nested(f.node) if isinstance(n, ast.If) and isinstance(n.test, ast.Name)
-                  and any(isinstance(s, ast.Assign) and any(isinstance(t, ast.Name) and t.id in ("codes_list", "unique_list")
-                                                            for t in s.targets) for s in n.body)]
+    def prepend_pos(st: ast.stmt) -> Optional[Tuple[str, str]]:
+        if isinstance(st, ast.Assign) and isinstance(st.value, ast.List) and isinstance(st.targets[0], ast.Name) \
+                and st.targets[0].id in (codes_list, unique_list) and len(st.value.elts) == 2:
+            tgt = st.targets[0].id
+            star = [i for i, e in enumerate(st.value.elts) if isinstance(e, ast.Starred) and norm(e.value) == tgt]
+            if len(star) == 1:
+                return tgt, ("front" if star[0] == 1 else "back")
+        return None
+
+    pre_blocks = [n for n in walk_no_nested(f.node) if isinstance(n, ast.If) and any(prepend_pos(b) for b in n.body)]
     if not pre_blocks:
         raise AnalysisError("P7: prefix prepend block not found")
     blk = pre_blocks[0]
-    pos = {}
-    for s in blk.body:
-        if isinstance(s, ast.Assign) and isinstance(s.value, ast.List) and isinstance(s.targets[0], ast.Name):
-            tgt = s.targets[0].id
-            elts = s.value.elts
-            star = [i for i, e in enumerate(elts) if isinstance(e, ast.Starred) and norm(e.value) == tgt]
-            mono = [i for i, e in enumerate(elts) if "mono" in norm(e)]
-            if star and mono:
-                pos[tgt] = "front" if mono[0] < star[0] else "back"
-    if pos.get("codes_list") and pos.get("codes_list") == pos.get("unique_list"):
-        res.ok(f, blk, f"prefix prepended to codes_list and unique_list at the {pos['codes_list']} under {norm(blk.test)}", "")
+    pos = dict(p for p in (prepend_pos(b) for b in blk.body) if p)
+    if pos.get(codes_list) and pos.get(codes_list) == pos.get(unique_list):
+        res.ok(f, blk, f"prefix prepended to the code list and the unique list at the {pos[codes_list]} under {norm(blk.test)}", "")
     else:
         res.bad(f, blk, f"prefix placement {pos}",
                 "the monotonic prefix is not inserted at the same position of the code list and the unique list: chunk i's "
                 "codes would be mapped through chunk j's pointer table")
-    # the slicing of the key by the prefix uses the same condition
-    cut = [n for n in walk_no_nested(f.node) if isinstance(n, ast.If) and isinstance(n.test, ast.Name)
-           and n.test.id == (blk.test.id if isinstance(blk.test, ast.Name) else "") and n is not blk]
-    if cut and any("group_key[cutoff:]" in norm(s) for s in cut[0].body):
-        res.ok(f, cut[0], f"key tail taken under the same condition {norm(blk.test)}", "", nontrivial=False)
     # 4. _group_ikey built from the code list
-    gi = [s for s in stmts if isinstance(s, ast.Assign) and any(attr_chain(t) == ("self", "_group_ikey") for t in s.targets)
-          and "chunked_array" in norm(s.value)]
-    if gi and "codes_list" in norm(gi[0].value):
+    gi = [s_ for s_ in stmts if isinstance(s_, ast.Assign) and any(attr_chain(t) == ("self", "_group_ikey") for t in s_.targets)
+          and "chunked_array" in norm(s_.value)]
+    if gi and codes_list in {x.id for x in ast.walk(gi[0].value) if isinstance(x, ast.Name)}:
         res.ok(f, gi[0], norm(gi[0]), "codes are the chunk list the pointer tables are aligned with")
     else:
-        res.bad(f, gi[0] if gi else f.node, norm(gi[0]) if gi else "self._group_ikey", "the chunked codes are not built from codes_list")
+        res.bad(f, gi[0] if gi else f.node, norm(gi[0]) if gi else "self._group_ikey", "the chunked codes are not built from the code list")
     return res
 
 
@@ -815,7 +836,8 @@ def rule_P9(repo: Repo) -> RuleResult:
 
 def rule_P11(repo: Repo) -> RuleResult:
     res = RuleResult("P11", "transform path restores the inputs' index and container")
-    f = repo.func(CORE, "GroupBy._apply_gb_reduction")
+    from .canon import canon_func
+    f = canon_func(repo, CORE, "GroupBy._apply_gb_reduction")
     tr = [n for n in walk_no_nested(f.node) if isinstance(n, ast.If) and isinstance(n.test, ast.Name) and n.test.id == "transform"]
     if not tr:
         raise AnalysisError("P11: transform branch not found")
